@@ -48,6 +48,7 @@ var keyProp = map[string]string{
 	"output:not-json-line":       "C10",
 	"output:duplicate":           "C10",
 	"output:action-before-login": "C10",
+	"output:earlier-events-lost": "C10",
 	"e2e:identity":               "C01",
 	"e2e:once-in-order":          "C02",
 	"e2e:silence":                "C04",
@@ -79,6 +80,16 @@ func judge(sc *scenario, output []byte) verdict {
 	var v verdict
 	add := func(key, format string, a ...any) {
 		v.Problems = append(v.Problems, problem{key, fmt.Sprintf(format, a...)})
+	}
+
+	// ---- C10 output:earlier-events-lost: what was in the file when the daemon started is still there, untouched,
+	// and everything new comes after it (the daemon appends)
+	if pre := prefillBytes(sc.Prefill); len(pre) > 0 {
+		if !bytes.HasPrefix(output, pre) {
+			add("output:earlier-events-lost", "the events file held %d event(s) of an earlier run when the daemon started; they are no longer intact at the beginning of the file, which now begins %q", sc.Prefill, trunc(string(output)))
+		} else {
+			output = output[len(pre):]
+		}
 	}
 
 	// ---- C10 output:not-json-line: the file is a sequence of complete lines, each exactly one JSON event
